@@ -144,12 +144,13 @@ def g_expr(rng, tabs, d, ty=None):
             return f
         if r < 0.2:
             return ["over", f, [g_expr(rng, tabs, 0) for _ in range(rng.randint(0, 2))],
-                    [["ord", rng.choice(["", "desc", "asc", "nulls_first", "nulls_last"]), g_expr(rng, tabs, 0)] for _ in range(rng.randint(0, 2))],
+                    [["ord", rng.choice(["", "desc", "asc", "nulls_first", "nulls_last"]),
+                      ["labelref", rng.choice(["x", "r0", "id"])] if rng.random() < 0.25 else g_expr(rng, tabs, 0)] for _ in range(rng.randint(0, 2))],
                     rng.choice([None, None, ["rows", None, 0], ["range", -1, 1], ["groups", 1, None], ["rows", 0, 0]])]
         if r < 0.27:
             return ["filter", f, g_expr(rng, tabs, d - 1, "bool")]
         if r < 0.32:
-            return ["within_group", f, [g_expr(rng, tabs, 0)]]
+            return ["within_group", f, [["labelref", rng.choice(["x", "id"])] if rng.random() < 0.3 else g_expr(rng, tabs, 0)]]
         if r < 0.36:
             return ["agg_order_by", f, [g_expr(rng, tabs, 0)]]
         return f
@@ -275,7 +276,9 @@ def g_select(rng, d, simple=False, correlate=None, ncols=None, labels=False):
                      rng.choice(["*", "mysql", "mssql", "oracle", "postgresql", "sqlite"])]
     if rng.random() < 0.12:
         s["label_style"] = rng.choice(["none", "tablename_plus_col", "disambiguate", "legacy_orm"])
-    if d > 0 and rng.random() < 0.18:
+    if d > 0 and rng.random() < 0.15:
+        s["ctes"] = [[rng.choice(["dc", "Upsert 1"]), g_dml(rng, 0), "", rng.random() < 0.7]]
+    elif d > 0 and rng.random() < 0.18:
         s["ctes"] = [[rng.choice(["cte1", "Cte 2", "select"]), g_select(rng, d - 1, simple=True, ncols=2, labels=True),
                       rng.choice(["", "", "recursive", "nesting", "materialized", "not_materialized"]), rng.random() < 0.6]]
     sel = ["select", s]
@@ -295,6 +298,12 @@ def g_dml(rng, d):
     cte = None
     if rng.random() < 0.1:
         cte = ["cte1", g_select(rng, 0, simple=True, ncols=2, labels=True), rng.choice(["", "recursive"]), True]
+    elif d > 0 and rng.random() < 0.12:
+        cte = ["dcte", g_dml(rng, 0), "", True]
+    if d == 0 and rng.random() < 0.5 and ret in (None, []):
+        ret = rng.choice([["cols"], ["star"], ["exprs", [g_expr(rng, [t], 2, rng.choice(["int", "num"])) for _ in range(rng.randint(1, 2))]]])
+    elif rng.random() < 0.15:
+        ret = ["exprs", [g_expr(rng, [t], 2, rng.choice(["int", "num"])) for _ in range(rng.randint(1, 2))]]
     if kind < 0.45:
         vals = rng.random()
         r = {"table": t, "returning": ret, "cte": cte}
@@ -313,9 +322,9 @@ def g_dml(rng, d):
         if oc < 0.25:
             r["on_conflict"] = [rng.choice(["sqlite", "postgresql"]), rng.choice(["nothing", "update"]),
                                 rng.choice([None, ["id"], ["cons"]]), rng.choice([None, g_expr(rng, [t], 1, "bool")]),
-                                rng.choice(["excluded", "lit", "empty"])]
+                                rng.choice(["excluded", "lit", "empty", "unknown"])]
         elif oc < 0.35:
-            r["on_duplicate"] = rng.choice(["kw", "inserted", "list", "empty"])
+            r["on_duplicate"] = rng.choice(["kw", "inserted", "list", "empty", "unknown"])
         if rng.random() < 0.08:
             r["prefix"] = rng.choice(["OR REPLACE", "IGNORE"])
         return ["insert", r]
@@ -400,7 +409,7 @@ def g_ddl(rng):
                                  {"postgresql_include": ["c0"]}, {"postgresql_concurrently": True}, {"postgresql_ops": {"c0": "text_pattern_ops"}},
                                  {"mssql_where": "c0 > 1"}, {"mssql_columnstore": True}, {"postgresql_with": {"fillfactor": 50}},
                                  {"postgresql_tablespace": "ts"}, {"postgresql_nulls_not_distinct": True}, {"mariadb_length": 2}]),
-                     rng.choice(["cols", "cols", "expr", "desc"])])
+                     rng.choice(["cols", "cols", "expr", "desc", "binary"])])
         # the option values name an existing column (an unknown column name there is a plain KeyError: user error)
         opts = cons[-1][3]
         for k2, v in list(opts.items()):
@@ -414,7 +423,7 @@ def g_ddl(rng):
                                 {"oracle_compress": True}, {"oracle_compress": 6}, {"postgresql_partition_by": "RANGE (c0)"},
                                 {"postgresql_inherits": "p"}, {"postgresql_inherits": ["p", "q"]}, {"postgresql_with_oids": True},
                                 {"postgresql_on_commit": "DROP"}, {"postgresql_tablespace": "ts"}, {"mysql_partition_by": "HASH(c0)", "mysql_partitions": "3"},
-                                {"sqlite_autoincrement": True}, {"mariadb_engine": "x", "mysql_engine": "y"}, {"mysql_auto_increment": "5"},
+                                {"sqlite_autoincrement": True}, {"mariadb_engine": "x", "mysql_engine": "y"}, {"mysql_auto_increment": rng.choice(["5", 5])},
                                 {"oracle_tablespace": "ts"}, {"postgresql_using": "heap"}, {"mysql_default charset": "x"}, {"prefixes": ["TEMPORARY"]},
                                 {"comment": "it's a 100% table"}, {"mysql_comment": "x"}, {"oracle_on_commit": "PRESERVE ROWS"}])
     ops = ["create_table", "create_table", "create_table", "drop_table", "create_index", "drop_index", "add_constraint", "drop_constraint",
@@ -442,11 +451,91 @@ def g_opts(rng):
     return o
 
 
+def g_ctegraph(rng):
+    """CTEs that select from the base table and from EARLIER CTEs, a main statement that refers to some of them in FROM /
+    JOIN / IN-subquery, and add_cte() calls (with and without nest_here) - so that a CTE can be reached indirectly through
+    another CTE and directly, in either order"""
+    n = rng.randint(2, 4)
+    ctes = []
+    for k in range(n):
+        refs = [j for j in range(k) if rng.random() < 0.6]
+        ctes.append({"name": rng.choice(["a", "b", "c", "d", "Mixed N"]) if rng.random() < 0.3 else "c%d" % k, "refs": refs,
+                     "kind": rng.choice(["select"] * 5 + ["insert", "update", "delete"]), "nesting": rng.random() < 0.15,
+                     "recursive": rng.random() < 0.1})
+    main = {"from": [j for j in range(n) if rng.random() < 0.6] or [n - 1], "join": rng.random() < 0.4,
+            "in_sub": rng.choice([None, None] + list(range(n))), "sub_add": rng.choice([None, None, [rng.randrange(n), rng.random() < 0.6]]),
+            "add": [[rng.sample(range(n), rng.randint(1, n)), rng.random() < 0.5] for _ in range(rng.randint(0, 2))],
+            "kind": rng.choice(["select"] * 4 + ["insert_from", "update", "delete"])}
+    return ["ctegraph", {"ctes": ctes, "main": main}]
+
+
+def g_nested_upsert(rng):
+    """a dialect upsert (with and without a set_ key that is not a column: legal, warns) that is NOT the outermost statement,
+    compiled on its own dialect family"""
+    fam = rng.choice(["sqlite", "postgresql", "mysql"])
+    t = rng.choice(TABLES)
+    ins = {"table": t, "returning": rng.choice([["cols"], ["star"], None]), "cte": None, "inline": False,
+           "values": {c[0]: _lit(rng, c[1]) for c in rng.sample(COLS[t], rng.randint(1, 2))}}
+    if fam == "mysql":
+        ins["on_duplicate"] = rng.choice(["unknown", "unknown", "kw", "inserted"])
+    else:
+        ins["on_conflict"] = [fam, rng.choice(["update", "update", "nothing"]), rng.choice([None, ["id"]]), None,
+                              rng.choice(["unknown", "unknown", "excluded", "lit"])]
+    inner = ["insert", ins]
+    how = rng.random()
+    if how < 0.5:
+        src = ["select", {"cols": [["lit", 1]] if ins["returning"] is None else [_col(rng, [t])], "from": [["t", t]],
+                          "ctes": [[rng.choice(["up", "Up Sert"]), inner, "", ins["returning"] is not None and rng.random() < 0.7]]}]
+    else:
+        o = rng.choice(TABLES)
+        kind = rng.choice(["update", "delete", "insert"])
+        d = {"table": o, "returning": None, "cte": ["up", inner, "", True]}
+        if kind == "update":
+            d.update(where=g_expr(rng, [o], 1, "bool"), values={COLS[o][1][0]: _lit(rng, COLS[o][1][1])})
+        elif kind == "delete":
+            d.update(where=g_expr(rng, [o], 1, "bool"))
+        else:
+            d.update(values={COLS[o][0][0]: ["lit", 1]}, inline=False)
+        src = [kind, d]
+    dv = rng.choice([k for k in VKEYS if FAMILY(k) == fam or (fam == "mysql" and FAMILY(k) == "mariadb")])
+    return src, dv
+
+
+def g_dml_labelref(rng):
+    """window functions / WITHIN GROUP whose ORDER BY is a STRING label reference, inside DML values / RETURNING (there is no
+    enclosing SELECT to resolve the label against: the documented answer is CompileError)"""
+    t = rng.choice(TABLES)
+    cs = COLS[t]
+    ref = ["labelref", rng.choice([cs[1][0], "x", "r0"])]
+    f = ["func", rng.choice(["rank", "row_number", "max", "percentile_cont"]), [] if rng.random() < 0.5 else [_col(rng, [t], "int")]]
+    if rng.random() < 0.6:
+        e = ["over", f, [], [["ord", rng.choice(["", "desc", "asc", "nulls_last"]), ref]], None]
+    else:
+        e = ["within_group", f, [ref]]
+    kind = rng.choice(["update", "update", "delete", "insert"])
+    d = {"table": t, "cte": None, "returning": rng.choice([None, ["exprs", [e]]])}
+    if kind == "update":
+        d.update(where=None, values={cs[1][0]: e} if d["returning"] is None or rng.random() < 0.5 else {cs[1][0]: _lit(rng, cs[1][1])})
+    elif kind == "delete":
+        d.update(where=g_expr(rng, [t], 1, "bool"), returning=["exprs", [e]])
+    else:
+        d.update(values={cs[1][0]: e} if rng.random() < 0.5 else {cs[0][0]: ["lit", 1]}, inline=False, returning=["exprs", [e]])
+    return [kind, d]
+
+
 def gen(rng, n):
     cases = []
     for i in range(n):
         r = rng.random()
-        if r < 0.5:
+        if r < 0.035:
+            src, dv = g_nested_upsert(rng)
+            cases.append({"in": [9, i], "kind": "fuzz", "model": False, "src": src, "dv": dv, "opts": g_opts(rng)})
+            continue
+        if r < 0.07:
+            src = g_dml_labelref(rng)
+        elif r < 0.17:
+            src = g_ctegraph(rng)
+        elif r < 0.5:
             src = g_select(rng, rng.randint(0, 3))
         elif r < 0.75:
             src = g_dml(rng, rng.randint(0, 2))
@@ -793,7 +882,7 @@ class B:
         froms = [self.frm(x) for x in d["from"]]
         ctes = []
         for name, q, mode, use in d.get("ctes", []):
-            qq = self.sel(q)
+            qq = self.dml(q) if q[0] in ("insert", "update", "delete") else self.sel(q)
             c = qq.cte(name, recursive=mode == "recursive", nesting=mode == "nesting")
             if mode in ("materialized", "not_materialized"):
                 c = c.prefix_with(mode.upper().replace("_", " "))
@@ -803,7 +892,7 @@ class B:
         cols = [self.e(x) for x in d["cols"]]
         s = sa.select(*cols).select_from(*froms)
         for c, use in ctes:
-            if use:
+            if use and len(list(c.c)):
                 s = s.where(list(c.c)[0] == 1)
             else:
                 s = s.add_cte(c)
@@ -850,13 +939,15 @@ class B:
             return st.returning(list(t.c)[0], list(t.c)[-1])
         if ret == ["star"]:
             return st.returning(t)
+        if ret[0] == "exprs":
+            return st.returning(*[self.e(x).label("r%d" % i) for i, x in enumerate(ret[1])])
         return st.returning((list(t.c)[0] + 1).label("e"), self.sa.func.lower(self.sa.literal("X")))
 
     def add_cte(self, st, cte):
         if cte is None:
             return st
         name, q, mode, _ = cte
-        c = self.sel(q).cte(name, recursive=mode == "recursive")
+        c = (self.dml(q) if q[0] in ("insert", "update", "delete") else self.sel(q)).cte(name, recursive=mode == "recursive")
         return st.add_cte(c)
 
     def dml(self, r):
@@ -892,7 +983,8 @@ class B:
                     if not target:
                         target = {"index_elements": ["id"]}
                     c1 = list(t.c)[1]
-                    set_ = {"excluded": {c1.name: st.excluded[c1.name]}, "lit": {c1.name: 5}, "empty": {}}[oc[4]]
+                    set_ = {"excluded": {c1.name: st.excluded[c1.name]}, "lit": {c1.name: 5}, "empty": {},
+                            "unknown": {c1.name: 5, "legacy_col": 7}}[oc[4]]
                     st = st.on_conflict_do_update(set_=set_, where=None if oc[3] is None else self.e(oc[3]), **target)
             if od:
                 c1 = list(t.c)[1]
@@ -902,6 +994,8 @@ class B:
                     st = st.on_duplicate_key_update({c1.name: st.inserted[c1.name]})
                 elif od == "list":
                     st = st.on_duplicate_key_update([(c1.name, 5), (list(t.c)[0].name, sa.func.now())])
+                elif od == "unknown":
+                    st = st.on_duplicate_key_update({c1.name: 5, "legacy_col": 7})
                 else:
                     st = st.on_duplicate_key_update({})
             if d.get("prefix"):
@@ -991,6 +1085,8 @@ class B:
                     exprs = [sa.func.lower(t.c[cn[2][0]])]
                 elif how == "desc" and cn[2]:
                     exprs = [t.c[cn[2][0]].desc()]
+                elif how == "binary" and cn[2]:
+                    exprs = [t.c[cn[2][0]] + 1]
                 else:
                     exprs = [t.c[x] for x in cn[2]]
                 ix = sa.Index(cn[1], *exprs, **cn[3])
@@ -1044,7 +1140,58 @@ class B:
             return ("metadata", m, op)
         raise NotAccepted(op)
 
+    def ctegraph(self, r):
+        sa = self.sa
+        d = r[1]
+        t = self.T["t1"]
+        built = []
+        for cd in d["ctes"]:
+            refs = [built[j] for j in cd["refs"]]
+            if cd["kind"] == "select":
+                q = sa.select(t.c.id, t.c.x).where(t.c.x > 5)
+                for rc in refs:
+                    q = q.where(t.c.id.in_(sa.select(list(rc.c)[0]))) if len(refs) > 1 else sa.select(list(rc.c)[0].label("id"), list(rc.c)[-1].label("x"))
+            elif cd["kind"] == "insert":
+                q = sa.insert(t).values(id=1, x=2).returning(t.c.id, t.c.x)
+                if refs:
+                    q = sa.insert(t).from_select(["id", "x"], sa.select(list(refs[0].c)[0], list(refs[0].c)[-1])).returning(t.c.id, t.c.x)
+            elif cd["kind"] == "update":
+                q = sa.update(t).values(x=7).returning(t.c.id, t.c.x)
+                for rc in refs:
+                    q = q.where(t.c.id.in_(sa.select(list(rc.c)[0])))
+            else:
+                q = sa.delete(t).returning(t.c.id, t.c.x)
+                for rc in refs:
+                    q = q.where(t.c.id.in_(sa.select(list(rc.c)[0])))
+            c = q.cte(cd["name"], nesting=cd["nesting"], recursive=cd["recursive"] and cd["kind"] == "select")
+            if cd["recursive"] and cd["kind"] == "select":
+                c = c.union_all(sa.select(*list(c.c)).where(list(c.c)[0] < 5))
+            built.append(c)
+        m = d["main"]
+        fr = [built[j] for j in m["from"]]
+        if m["kind"] == "select" or m["kind"] == "insert_from":
+            if m["join"] and len(fr) > 1:
+                s = sa.select(list(fr[0].c)[0], list(fr[1].c)[-1]).join_from(fr[0], fr[1], list(fr[0].c)[0] == list(fr[1].c)[0])
+            else:
+                s = sa.select(*[list(f.c)[-1] for f in fr])
+        elif m["kind"] == "update":
+            s = sa.update(t).values(x=1).where(t.c.id.in_(sa.select(list(fr[0].c)[0])))
+        else:
+            s = sa.delete(t).where(t.c.id.in_(sa.select(list(fr[0].c)[0])))
+        if m["in_sub"] is not None:
+            sub = sa.select(list(built[m["in_sub"]].c)[0])
+            if m["sub_add"]:
+                sub = sub.add_cte(built[m["sub_add"][0]], nest_here=m["sub_add"][1])
+            s = s.where(t.c.id.in_(sub)) if m["kind"] in ("update", "delete") else s.where(list(fr[0].c)[0].in_(sub))
+        for idxs, nest in m["add"]:
+            s = s.add_cte(*[built[j] for j in idxs], nest_here=nest)
+        if m["kind"] == "insert_from":
+            s = sa.insert(self.T["t2"]).from_select(["id", "y"][: len(list(s.selected_columns))], s)
+        return s
+
     def build(self, r):
+        if r[0] == "ctegraph":
+            return self.ctegraph(r)
         if r[0] in ("select", "setop"):
             return self.sel(r)
         if r[0] in ("insert", "update", "delete"):
@@ -1250,9 +1397,8 @@ def _m_foreign_type(c, w):
 
 def _m_foreign_on_conflict(c, w):
     g = _sig(w)
-    s = c["src"]
     return (g["exc"] == "AttributeError" and g["where"].endswith("_on_conflict_target") and g["dv"].startswith("postgresql")
-            and s[0] == "insert" and (s[1].get("on_conflict") or [None])[0] == "sqlite")
+            and _has(c["src"], lambda x: isinstance(x, dict) and (x.get("on_conflict") or [None])[0] == "sqlite"))
 
 
 def _m_mssql_comment(c, w):
@@ -1286,8 +1432,42 @@ def _m_dropix_notable(c, w):
 
 def _m_mysql_ixlen(c, w):
     g = _sig(w)
-    return (g["exc"] == "AttributeError" and "UnaryExpression" in g["msg"] and FAMILY(c["dv"]) in ("mysql", "mariadb")
-            and any(isinstance(x[3].get("mysql_length", x[3].get("mariadb_length")), dict) and x[4] in ("desc", "expr") for x in _indexes(c)))
+    return (g["exc"] == "AttributeError" and ("UnaryExpression" in g["msg"] or "BinaryExpression" in g["msg"])
+            and FAMILY(c["dv"]) in ("mysql", "mariadb")
+            and any(isinstance(x[3].get("mysql_length", x[3].get("mariadb_length")), dict) and x[4] in ("desc", "expr", "binary") for x in _indexes(c)))
+
+
+def _m_sqlite_where_str(c, w):
+    g = _sig(w)
+    return (g["exc"] == "AttributeError" and "'str' object has no attribute '_compiler_dispatch'" in g["msg"] and g["dv"].startswith("sqlite")
+            and any(isinstance(x[3].get("sqlite_where"), str) for x in _indexes(c)))
+
+
+def _is_multitable_dml(x):
+    return isinstance(x, list) and len(x) == 2 and x[0] in ("update", "delete") and isinstance(x[1], dict) and x[1].get("from")
+
+
+def _m_mssql_multitable_cte(c, w):
+    g = _sig(w)
+    if not (g["exc"] == "TypeError" and "multiple values" in g["msg"] + w and g["dv"].startswith("mssql")):
+        return False
+    # a multi-table UPDATE/DELETE that is NOT the outermost statement
+    src = c["src"]
+    kids = list(src[1].values()) if _is_multitable_dml(src) else src
+    return _has(kids, _is_multitable_dml)
+
+
+def _m_mysql_odk_nested(c, w):
+    g = _sig(w)
+    return (g["exc"] == "AttributeError" and g["where"].endswith("visit_on_duplicate_key_update") and "'table'" in g["msg"]
+            and _has(c["src"], lambda x: isinstance(x, dict) and x.get("on_duplicate") == "unknown"))
+
+
+def _m_mysql_int_option(c, w):
+    g = _sig(w)
+    d = _ddl(c)
+    return (g["exc"] == "TypeError" and g["where"].endswith("post_create_table") and "expected str instance" in g["msg"]
+            and d is not None and any(isinstance(v, int) and not isinstance(v, bool) for k, v in d[2].get("opts", {}).items() if k.startswith(("mysql_", "mariadb_"))))
 
 
 def _m_raw_any(c, w):
@@ -1310,6 +1490,10 @@ MATCHERS = [
     ("C22-aggregate-strings-default-dialect-typeerror", _m_aggstr),
     ("C22-drop-index-without-table-attributeerror", _m_dropix_notable),
     ("C22-mysql-index-length-dict-expression-attributeerror", _m_mysql_ixlen),
+    ("C22-mssql-multitable-dml-in-cte-typeerror", _m_mssql_multitable_cte),
+    ("C22-sqlite-where-string-attributeerror", _m_sqlite_where_str),
+    ("C22-mysql-on-duplicate-nested-warning-attributeerror", _m_mysql_odk_nested),
+    ("C22-mysql-integer-table-option-typeerror", _m_mysql_int_option),
 ]
 
 
